@@ -149,7 +149,7 @@ impl Check for C20 {
         }
     }
     fn rule(&self) -> String {
-        "One run = one conversion input drawn from the tape (run index mod 5 selects GDS->raw on importable 1-5-cell hierarchies with references/arrays/labels in either listing order; raw->GDS and raw->proto on raw libraries with 1-8 named layers, layouts, instances and abstracts whose ports and blockage maps hold 1-8 layers each; LEF->raw->LEF on macros with multi-layer, multi-port pins and obstructions; gridded->raw on 1-4 gridded cells with instances, cuts, net assignments and abstracts over a five-metal stack) converted under K configurations (K=4 quick, 16 thorough): each on a fresh thread whose SipHash keys come from a drawn hash seed through the getrandom seam, with a scripted clock (fixed; +1 s per read across a year boundary; backward jumps; +1 year per read); 1 run in 32 also repeats configuration 0 in a separate child process (different ASLR layout / pid). Outcome (canonical dump, or error text, or panic site) must be identical across configurations; dumps keep every order that belongs to the result and sort only map-typed fields; raw->GDS dumps exclude exactly the library's and structs' dates. evaluations = conversions executed; non-trivial = dump has >= 8 lines; distinct = distinct dump digests of configuration 0.".into()
+        "One run = one conversion input drawn from the tape (run index mod 5 selects GDS->raw on importable 1-5-cell hierarchies with references/arrays/labels in either listing order; raw->GDS and raw->proto on raw libraries with 1-8 named layers, layouts, instances and abstracts whose ports and blockage maps hold 1-8 layers each; LEF->raw->LEF on macros with multi-layer, multi-port pins and obstructions; gridded->raw on 1-4 gridded cells with instances, cuts, net assignments and abstracts over a five-metal stack) converted under K configurations (K=4 quick, 16 thorough): each on a fresh thread whose SipHash keys come from a drawn hash seed through the getrandom seam, with a scripted clock (fixed; +1 s per read across a year boundary; backward jumps; +1 year per read); every run also converts, on one more fresh thread with configuration 0's seed and clock, the same input twice in a row and once more after converting and dropping a different input of the same kind (history independence: stale address-keyed caches, per-map keys); 1 run in 32 also repeats configuration 0 in a separate child process (different ASLR layout / pid). Outcome (canonical dump, or error text, or panic site) must be identical across configurations; dumps keep every order that belongs to the result and sort only map-typed fields; raw->GDS dumps exclude exactly the library's and structs' dates. evaluations = conversions executed; non-trivial = dump has >= 8 lines; distinct = distinct dump digests of configuration 0.".into()
     }
     fn assumptions(&self) -> Vec<String> {
         vec![
@@ -203,8 +203,65 @@ impl Check for C20 {
                 }
             }
         }
-        out.evals = k;
+        // history configurations (same hash seed and clock as configuration 0, one fresh thread):
+        //  (a) the same input converted twice in a row; (b) a different input of the same kind converted and dropped first.
+        // The result must not depend on what the thread converted before (stale caches keyed by addresses, per-map hash keys).
+        let decoy: Vec<u64> = {
+            let mut dt = Tape::record(ft.bits());
+            let _ = guard(|| match conv {
+                0 => {
+                    gen_gds_importable(&mut dt);
+                }
+                1 => {
+                    gen_raw(&mut dt, &RawOpts { allow_path_in_abstract: true, allow_pico: true });
+                }
+                2 => {
+                    gen_raw(&mut dt, &RawOpts { allow_path_in_abstract: true, allow_pico: false });
+                }
+                4 => {
+                    let _ = crate::gen_tetris::gen_tetris(&mut dt);
+                }
+                _ => {
+                    gen_lef_for_import(&mut dt);
+                }
+            });
+            dt.used()
+        };
+        let (v1, v2, dv) = (vals.clone(), vals.clone(), decoy.clone());
+        tick();
+        let hist = hashseed::with_hash_seed(0x1111_2222_3333_4444, move || {
+            let first = convert_here(conv, v1.clone(), 0);
+            let again = convert_here(conv, v1, 0);
+            let _decoy = convert_here(conv, dv, 0);
+            let after_decoy = convert_here(conv, v2, 0);
+            (first, again, after_decoy)
+        });
+        let mut history: Vec<(&str, Outcome)> = Vec::new();
+        match hist {
+            Ok((first, again, after)) => {
+                history.push(("first-in-thread", first));
+                history.push(("second-time-in-the-same-thread", again));
+                history.push(("after-converting-another-input-in-the-same-thread", after));
+            }
+            Err(_) => {
+                out.violation = Some(Violation { class: "harness-panic".into(), sig: "harness:conversion-thread-died".into(), detail: "history thread died outside guard".into(), artefact: Value::Null });
+                return out;
+            }
+        }
+        out.evals = k + 4;
         let base = outcomes[0].2.clone();
+        for (label, o) in &history {
+            out.probes.hit(&format!("history_{}", label));
+            if out.violation.is_none() && (o.kind != base.kind || o.dump != base.dump) {
+                let (path, a, b) = first_diff_line(&base.dump, &o.dump).unwrap_or(("outcome-kind".into(), base.kind.clone(), o.kind.clone()));
+                out.violation = Some(Violation {
+                    class: "nondeterminism".into(),
+                    sig: format!("{}:history:{}", CONVS[conv], sanitize(&path)),
+                    detail: format!("{} gives a different result {} (same hash seed, same clock): first difference at `{}`", CONVS[conv], label, path),
+                    artefact: json!({"conversion": CONVS[conv], "fresh_thread_line": truncate(&a, 600), "history_line": truncate(&b, 600), "history": label}),
+                });
+            }
+        }
         out.probes.hit(&format!("conv_{}_{}", CONVS[conv], base.kind));
         let mut d = Digest::new();
         d.str(&base.dump);
